@@ -38,6 +38,7 @@ LEVEL_TEXT = (
     "and other_component on both the pad-before and pad-after paths; wrongly positioned inputs and arity mismatches raise before any padding. "
     "Structural necessary conditions for every signature and user function; what the user function receives is produced by xarray (trusted)."
 )
+LEVEL_TEXT += ' Also decided: rule / fill-value mappings keyed by a real axis that is called like a dummy name reach pad() as keyed by the caller; every argument keeps its own order of core dimensions; fewer `axis` entries than signature inputs are refused.'
 LEVEL_NOTE = "Trusted: xarray.apply_ufunc core-dim semantics; the abstract evaluator. User functions are opaque."
 
 OPTIONS = ["boundary_width", "boundary", "fill_value", "dask", "map_overlap", "pad_before_func"]
